@@ -644,3 +644,47 @@ Proof.
   - intros target version rest Hsp ->. now apply classify_options.
   - intros H. now apply classify_neither.
 Qed.
+
+(* ---------- the service behind Listener.serve gets the whole stream *)
+Lemma try_matchers_len st0 fx : forall tables i s d s',
+  base st0 s -> try_matchers fx i tables s = (d, s') ->
+  (length (sn_src s') <= length (sn_src s))%nat.
+Proof.
+  induction tables as [|t ts IH]; intros i s d s' Hb H; cbn [try_matchers] in H.
+  - injection H as _ <-. lia.
+  - pose proof (minv_start _ _ Hb) as Hi.
+    destruct (read_full_minv st0 fx (rf_fuel (max_depth t) (reset true s)) (max_depth t) _ _ Hi)
+      as (seen & e & s2 & ERF & Hi2 & _ & Hl).
+    { unfold rf_fuel. lia. }
+    cbv zeta in H. rewrite ERF in H. cbn [reset sn_src] in Hl.
+    destruct (tree_match_prefix t seen).
+    + injection H as _ <-. cbn [reset sn_src]. exact Hl.
+    + specialize (IH _ _ _ _ (minv_base _ _ _ Hi2) H). lia.
+Qed.
+
+Theorem mux_service_complete : forall tables sc svc i rem0 rs,
+  tables_wf tables = true ->
+  mux_run true tables sc svc = (DSvc i, rem0, rs) ->
+  Forall (fun n => (0 < n)%nat) svc ->
+  (length (stream sc) + length sc <= length svc)%nat ->
+  delivered rs = stream sc.
+Proof.
+  intros tables sc svc i rem0 rs Hwf H Hpos Hlen. unfold mux_run in H.
+  destruct (mux_serve true tables sc) as [d s] eqn:EM. unfold mux_serve in EM.
+  destruct (try_matchers_sound (stream sc) true tables O _ _ _ (base_new _ sc eq_refl) Hwf EM) as (_ & Hs).
+  pose proof (try_matchers_len (stream sc) true tables O _ _ _ (base_new _ sc eq_refl) EM) as Hl.
+  cbn [new_sniffer sn_src] in Hl.
+  destruct d; try discriminate.
+  destruct (service_reads true svc s) as [rs' s'] eqn:ER. injection H as _ _ <-.
+  destruct (service_reads_replay (stream sc) true svc _ _ _ _ Hs ER) as ((_ & Heq & _) & _ & _).
+  cbn [app] in Heq.
+  assert (todo s <= length (stream sc) + length sc)%nat as Hb.
+  { destruct Hs as (_ & Hst & _). cbn [app] in Hst. apply (f_equal (@length Z)) in Hst.
+    rewrite app_length in Hst. unfold todo. lia. }
+  destruct (service_reads_drain (stream sc) true svc _ _ _ _ Hs Hpos ER) as [Hk|[Hp Hn]].
+  - assert (todo s' = 0)%nat as Hz by lia. unfold todo in Hz.
+    assert (pending s' = []) as Hp by (apply length_zero_iff_nil; lia).
+    assert (stream (sn_src s') = []) as Hn by (apply length_zero_iff_nil; lia).
+    rewrite Hp, Hn, !app_nil_r in Heq. exact Heq.
+  - rewrite Hp, Hn in Heq. cbn in Heq. rewrite !app_nil_r in Heq. exact Heq.
+Qed.
